@@ -50,10 +50,38 @@ func ExtractMatrices(M tensor.Tensor, nMatrices, nDimensions, hiddenSize int) ([
 			return nil, err
 		}
 
-		matrices[i] = m
+		// The tensor library drops a sliced dimension when a single entry of it remains, which
+		// happens here for a hidden size of one. Give the matrix its full shape back.
+		matrix := m.Materialize()
+
+		err = matrix.Reshape(append([]int{hiddenSize}, M.Shape()[2:]...)...)
+		if err != nil {
+			return nil, err
+		}
+
+		matrices[i] = matrix
 	}
 
 	return matrices, nil
+}
+
+// ExtractTimestep returns the part of X that belongs to timestep t. X is assumed to have a shape
+// of (sequence length, batch size, input size), the result has a shape of (batch size, input size),
+// also when the tensor library drops dimensions of size one while slicing.
+func ExtractTimestep(X tensor.Tensor, t int) (tensor.Tensor, error) {
+	view, err := X.Slice(NewSlicer(t, t+1), nil, nil)
+	if err != nil {
+		return nil, err
+	}
+
+	Xt := view.Materialize()
+
+	err = Xt.Reshape(X.Shape()[1], X.Shape()[2])
+	if err != nil {
+		return nil, err
+	}
+
+	return Xt, nil
 }
 
 // ZeroTensor returns a tensor filled with zeros with the given shape.
